@@ -8,7 +8,7 @@
 From Coq Require Import List Arith Bool Reals QArith Lia Lra ZArith.
 From TLV Require Import Base.Shape Base.PyList Base.Tensor Base.Ops Base.RSum Model.Metrics Model.MetricsSrc Proofs.MetricsProofs
   Proofs.MetricsProofs2 Proofs.MetricsProofs3 Proofs.MetricsProofs4 Proofs.MetricsProofs5 Proofs.MetricsProofs6
-  Proofs.MetricsProofs7 Proofs.MetricsProofs8 Proofs.MetricsProofs9 Proofs.MetricsProofs10 Proofs.MetricsProofs11 Proofs.MetricsProofs12 Proofs.MetricsProofs13 Proofs.MetricsProofs14 Proofs.MetricsProofs15 Proofs.MetricsProofs16 Proofs.MetricsProofs17 Proofs.MetricsProofs18 Proofs.MetricsProofs19 Proofs.MetricsProofs20 Proofs.MetricsProofs21 Proofs.MetricsProofs22 Proofs.MetricsSrcTie Model.MetricsPermute Model.MetricsAxis.
+  Proofs.MetricsProofs7 Proofs.MetricsProofs8 Proofs.MetricsProofs9 Proofs.MetricsProofs10 Proofs.MetricsProofs11 Proofs.MetricsProofs12 Proofs.MetricsProofs13 Proofs.MetricsProofs14 Proofs.MetricsProofs15 Proofs.MetricsProofs16 Proofs.MetricsProofs17 Proofs.MetricsProofs18 Proofs.MetricsProofs19 Proofs.MetricsProofs20 Proofs.MetricsProofs21 Proofs.MetricsProofs22 Proofs.MetricsProofs23 Proofs.MetricsProofs24 Proofs.MetricsSrcTie Model.MetricsPermute Model.MetricsAxis.
 Import ListNotations.
 Local Close Scope Q_scope.
 Local Open Scope R_scope.
@@ -969,3 +969,102 @@ Example C20_ex_normalisation_hyps : forall k, (k < 1)%nat ->
   mode_ok 1 (mode_at (pfs exr) (pfs exr) [[5]] [[5]] k) /\
   mode_ok 1 (mode_at (compared Rops true exr) (compared Rops true exr) (pcong exr) (pcong exr) k).
 Proof. exact ex_hyps. Qed.
+
+(* ---------- THE RANGE THEOREMS WITH THE TOLERANCE OF THE EXECUTED NORM TAPES EXPLICIT ----------
+   The tapes recorded from the implementation are floating-point square roots; the correspondence accepts a tape when
+   n > 0 and |n^2 - s| <= tau s (norms_okb, tau = 1e-11) -- norms_approx tau; the exact contract norms_valid is tau = 0. *)
+Theorem C20_norms_valid_is_tau0 : forall (M : mat R) (ns : list R), norms_valid M ns <-> norms_approx 0 M ns.
+Proof. exact norms_valid_approx0. Qed.
+Print Assumptions C20_norms_valid_is_tau0.
+
+Theorem C20_norms_okb_approx : forall (tau : R) (M : mat R) (ns : list R), norms_okb Rops tau M ns = true -> norms_approx tau M ns.
+Proof. exact norms_okb_approx. Qed.
+Print Assumptions C20_norms_okb_approx.
+
+(* every cosine computed with such tapes is bounded by 1 / (1 - tau) *)
+Theorem C20_cosine_bound_approx_tape : forall (tau : R) (r : nat) (m : cmode R) (i j : nat), 0 <= tau < 1 ->
+  mode_approx tau r m -> (i < r)%nat -> (j < r)%nat -> Rabs (cosine m i j) <= / (1 - tau).
+Proof. exact cosine_bound_approx. Qed.
+Print Assumptions C20_cosine_bound_approx_tape.
+
+(* congruence_coefficient: the value lies in [-K, K] ([0, K] with absolute values), K = (1 - tau)^-(number of modes) *)
+Theorem C20_congruence_range_approx_tape : forall (tau : R) (absv : bool) (As Bs : list (mat R)) (nas nbs : list (list R))
+  (assign : mat R -> list nat) (v : R) (p : list nat), 0 <= tau < 1 ->
+  congruence Rops absv As Bs nas nbs assign = Ok (v, p) -> tape_approx tau (zip_modes As Bs nas nbs) ->
+  is_perm (ncols (hd [] As)) p ->
+  let K := (/ (1 - tau)) ^ length (zip_modes As Bs nas nbs) in - K <= v <= K /\ (absv = true -> 0 <= v).
+Proof. exact congruence_range_approx. Qed.
+Print Assumptions C20_congruence_range_approx_tape.
+
+(* correlation_index: the range [0, 1] holds EXACTLY for every tau <= 1/2 (|max - 1| <= 1 as long as the entries stay below 2) *)
+Theorem C20_corrindex_range_approx_tape : forall (tau : R) (meth : cmethod) (tol : R) (f1s f2s : list (mat R)) (n1s n2s : list (list R)) (v : R),
+  0 <= tau <= / 2 -> correlation_index Rops (Some meth) tol f1s f2s n1s n2s = Ok v ->
+  tape_approx tau (ci_modes meth f1s f2s n1s n2s) -> 0 <= v <= 1.
+Proof. exact correlation_index_range_approx. Qed.
+Print Assumptions C20_corrindex_range_approx_tape.
+
+(* what a passing case means for the range (Paramcoq transfer of norms_okb): the tapes of the real-number model on the case's
+   rational inputs are valid up to 1e-11, hence the bounds above apply to it *)
+Theorem C20_agree_cong_range_sound : forall (absv : bool) (As Bs : list (mat Q)) (nas nbs : list (list Q)) (v : Q) (p : list nat),
+  Corr.C20.agree_cong absv As Bs nas nbs (Ok (v, p)) = true ->
+  let ms := zip_modes (map mapR As) (map mapR Bs) (map (map Q2R) nas) (map (map Q2R) nbs) in
+  let K := (/ (1 - / 10 ^ 11)) ^ length ms in
+  tape_approx (/ 10 ^ 11) ms /\
+  exists (r : nat) (C : mat R),
+    cong_matrix Rops absv (map mapR As) (map mapR Bs) (map (map Q2R) nas) (map (map Q2R) nbs) = Ok (r, C) /\
+    ((0 < r)%nat -> - K <= score Rops r C p <= K /\ (absv = true -> 0 <= score Rops r C p)).
+Proof. exact agree_cong_range_sound. Qed.
+Print Assumptions C20_agree_cong_range_sound.
+
+Theorem C20_agree_corridx_range_sound : forall (meth : cmethod) (ctol : Q) (f1 f2 : list (mat Q)) (n1 n2 : list (list Q)) (v : Q),
+  Corr.C20.agree_corridx (Some meth) ctol f1 f2 n1 n2 (Ok v) = true ->
+  exists vm : R, correlation_index Rops (Some meth) (Q2R ctol) (map mapR f1) (map mapR f2) (map (map Q2R) n1) (map (map Q2R) n2) = Ok vm /\
+    tape_approx (/ 10 ^ 11) (ci_modes meth (map mapR f1) (map mapR f2) (map (map Q2R) n1) (map (map Q2R) n2)) /\
+    0 <= vm <= 1 /\ Rabs (Q2R v - vm) <= / 10 ^ 9 * (2 + Rabs (Q2R v)).
+Proof. exact agree_corridx_range_sound. Qed.
+Print Assumptions C20_agree_corridx_range_sound.
+
+(* non-vacuity: a tape that is NOT exact (5.00000000001 for the column (3, 4)) meets norms_approx 1e-11 but not norms_valid *)
+Example C20_ex_norms_approx : norms_approx (/ 10 ^ 11) [[3]; [4]] [5 + / 10 ^ 11] /\ ~ norms_valid [[3]; [4]] [5 + / 10 ^ 11].
+Proof.
+  assert (P : 0 < / 10 ^ 11) by (apply Rinv_0_lt_compat; apply pow_lt; lra).
+  assert (S : / 10 ^ 11 <= / 10) by (apply Rinv_le_contravar; [lra | simpl; lra]).
+  split.
+  - intros j Hj. cbn [ncols length] in Hj. assert (j = 0%nat) by lia. subst j. cbn [nth]. split; [lra|].
+    rewrite col_sq_rsum. cbn [nrows length rsum]. unfold mget. cbn [nth f0 Rops]. apply Rabs_le. nra.
+  - intros H. destruct (H 0%nat) as (_ & E); [cbn; lia|]. cbn [nth] in E. rewrite col_sq_rsum in E. cbn [nrows length rsum] in E.
+    unfold mget in E. cbn [nth f0 Rops] in E. nra.
+Qed.
+
+(* ---------- leverage_score_dist: the simplex property with the tolerance of the executed SVD check explicit, and what a passing
+   case means (Paramcoq transfer; Nat.max is kept out of the translated term by passing max(shape) as a nat) ---------- *)
+Theorem C20_leverage_simplex_approx : forall (U : mat R) (sv : list R) (nr nc : nat) (eps : R) (l : list R) (delta : R),
+  leverage_score_dist Rops U sv nr nc eps = Ok l ->
+  (forall j, (j < length sv)%nat -> Rabs (rsum nr (fun i => (mget Rops U i j) ^ 2) - 1) <= delta) ->
+  length l = nr /\ Forall (fun x => 0 <= x) l /\ Rabs (fsum Rops l - 1) <= delta.
+Proof. exact leverage_simplex_approx. Qed.
+Print Assumptions C20_leverage_simplex_approx.
+
+Theorem C20_agree_lev_sound : forall (ltol : Q) (M U Vt : mat Q) (sv : list Q) (eps : Q) (l : list Q),
+  Corr.C20.agree_lev false ltol M U Vt sv eps (Ok l) = true ->
+  exists lm : list R,
+    leverage_score_dist_any Rops false (mapR U) (map Q2R sv) (nrows M) (ncols M) (Q2R eps) = Ok lm /\
+    Forall2 (fun x y => Rabs (x - y) <= Q2R ltol + Q2R ltol * (Rabs x + Rabs y)) lm (map Q2R l) /\
+    ortho_approx (Q2R ltol) (mapR U) (nrows M) (length sv) /\
+    length lm = nrows M /\ Forall (fun x => 0 <= x) lm /\ Rabs (fsum Rops lm - 1) <= Q2R ltol.
+Proof. exact agree_lev_sound. Qed.
+Print Assumptions C20_agree_lev_sound.
+
+Theorem C20_agree_lev_renorm_sound : forall (ltol : Q) (M U Vt : mat Q) (sv : list Q) (eps : Q) (l : list Q),
+  Corr.C20.agree_lev true ltol M U Vt sv eps (Ok l) = true ->
+  exists lm : list R,
+    leverage_score_dist_any Rops true (mapR U) (map Q2R sv) (nrows M) (ncols M) (Q2R eps) = Ok lm /\
+    Forall2 (fun x y => Rabs (x - y) <= Q2R ltol + Q2R ltol * (Rabs x + Rabs y)) lm (map Q2R l) /\
+    Rabs (Q2R (fsum Qops l) - 1) <= / 10 ^ 12.
+Proof. exact agree_lev_renorm_sound. Qed.
+Print Assumptions C20_agree_lev_renorm_sound.
+
+Example C20_ex_agree_lev :
+  Corr.C20.agree_lev false (1 # 1000000000)%Q [[3#5]; [4#5]]%Q [[3#5]; [4#5]]%Q [[1]]%Q [1]%Q (1 # 4503599627370496)%Q (Ok [9#25; 16#25]%Q) = true /\
+  Corr.C20.agree_lev true (1 # 100000)%Q [[3#5]; [4#5]]%Q [[3#5]; [4#5]]%Q [[1]]%Q [1]%Q (1 # 8388608)%Q (Ok [9#25; 16#25]%Q) = true.
+Proof. vm_compute. split; reflexivity. Qed.
